@@ -107,4 +107,25 @@ def step (st : St) (ws : List String) : St × String :=
 
 def main (_ : List String) : IO Unit := loopLines step {}
 
+/-! ### monitor for suite C09late: trace lines `[late] <op> => <result>`.  The Spec (C09_full):
+datagrams marked `late` must be unobservable, i.e. every result must be what the model answers
+when the late datagrams are left out. -/
+
+def splitArrow : List String → List String → List String × List String
+  | acc, [] => (acc.reverse, [])
+  | acc, "=>" :: rest => (acc.reverse, rest)
+  | acc, w :: rest => splitArrow (w :: acc) rest
+
+def lateStep (st : St × Bool) (ws : List String) : (St × Bool) × String :=
+  let (op, res) := splitArrow [] ws
+  match op with
+  | "late" :: _ => ((st.1, true), "ok")
+  | _ =>
+    let (st', out) := step st.1 op
+    let expect := " ".intercalate res
+    let late := if op.head? = some "new" then false else st.2
+    ((st', late), if out = expect then "ok" else if late then "late-frame-observable" else "mismatch")
+
+def mainLate (_ : List String) : IO Unit := loopLines lateStep ({}, false)
+
 end Driver.Mux
